@@ -3,7 +3,9 @@ package main
 // CFG helpers over go/ssa functions: natural loops, exits, reachability.
 
 import (
+	"go/constant"
 	"go/token"
+	"go/types"
 
 	"golang.org/x/tools/go/ssa"
 )
@@ -251,6 +253,25 @@ func membershipGuard(fn *ssa.Function, isMember func(ssa.Value) bool, target *ss
 		}
 	}
 	if memIf == nil {
+		// helper form: if contains(coll, member) { skip }; the target lies on the false side
+		for _, b := range fn.Blocks {
+			i, isIf := b.Instrs[len(b.Instrs)-1].(*ssa.If)
+			if !isIf {
+				continue
+			}
+			c, isCall := i.Cond.(*ssa.Call)
+			if !isCall {
+				continue
+			}
+			ci, isContains := containsHelper(c.Common().StaticCallee())
+			if !isContains || !isMember(stripConv(c.Common().Args[1-ci])) {
+				continue
+			}
+			if b.Succs[1].Dominates(target) && !blockReaches(b.Succs[0], target, innermostLoop(target)) {
+				return true, i, stripConv(c.Common().Args[ci])
+			}
+			return false, i, stripConv(c.Common().Args[ci])
+		}
 		return false, nil, nil
 	}
 	hm := innermostLoop(memIf.Block())
@@ -276,7 +297,135 @@ func membershipGuard(fn *ssa.Function, isMember func(ssa.Value) bool, target *ss
 			ok = false
 		}
 	}
+	if !ok && done != nil {
+		// flag form: "found" breaks out to the same block as exhaustion and is remembered in a
+		// flag (a phi that is false from the header edge and true from every found exit); the
+		// target lies on the false side of a test of that flag
+		ok = flagGuard(hm, done, target)
+	}
 	return ok, memIf, coll
+}
+
+// flagGuard: see membershipGuard.
+func flagGuard(hm, done, target *ssa.BasicBlock) bool {
+	in := loopBlocks(hm)
+	for _, ins := range done.Instrs {
+		phi, isPhi := ins.(*ssa.Phi)
+		if !isPhi {
+			break
+		}
+		good := len(done.Preds) >= 2
+		for i, p := range done.Preds {
+			c, isC := phi.Edges[i].(*ssa.Const)
+			if !isC || c.Value == nil || c.Value.Kind() != constant.Bool {
+				good = false
+				break
+			}
+			v := constant.BoolVal(c.Value)
+			if p == hm && v || p != hm && (!(in[p] || hm.Dominates(p)) || !v) {
+				good = false // exhaustion must give false, every other way out of the loop true
+			}
+		}
+		if !good || phi.Referrers() == nil {
+			continue
+		}
+		for _, r := range *phi.Referrers() {
+			ifi, isIf := r.(*ssa.If)
+			if !isIf || ifi.Cond != ssa.Value(phi) {
+				continue
+			}
+			b := ifi.Block()
+			if b.Succs[1].Dominates(target) && b.Succs[1] != b.Succs[0] && !blockReaches(b.Succs[0], target, nil) {
+				return true
+			}
+		}
+	}
+	return false
+}
+
+// containsHelper: f(coll, x) (in either order) reports whether x equals an
+// element of coll: one loop over the collection parameter with an equality test
+// against the other parameter, true returned only from the found side, false
+// only after exhaustion. Returns the index of the collection parameter.
+func containsHelper(f *ssa.Function) (collParam int, ok bool) {
+	if f == nil || f.Blocks == nil || len(f.Params) != 2 || !returnsBoolSig(f) {
+		return 0, false
+	}
+	for ci := 0; ci < 2; ci++ {
+		mem := ssa.Value(f.Params[1-ci])
+		var memIf *ssa.If
+		for _, b := range f.Blocks {
+			i, isIf := b.Instrs[len(b.Instrs)-1].(*ssa.If)
+			if !isIf {
+				continue
+			}
+			x, y, isEq := isEqualityCall(i.Cond)
+			if !isEq {
+				if bo, isB := i.Cond.(*ssa.BinOp); isB && bo.Op == token.EQL {
+					x, y, isEq = stripConv(bo.X), stripConv(bo.Y), true
+				}
+			}
+			if !isEq {
+				continue
+			}
+			for _, pr := range [][2]ssa.Value{{x, y}, {y, x}} {
+				if pr[0] == mem {
+					if c, found := elementOf(pr[1]); found && c == ssa.Value(f.Params[ci]) {
+						memIf = i
+					}
+				}
+			}
+		}
+		if memIf == nil {
+			continue
+		}
+		hm := innermostLoop(memIf.Block())
+		if hm == nil {
+			continue
+		}
+		good := true
+		for _, b := range f.Blocks {
+			r, isR := b.Instrs[len(b.Instrs)-1].(*ssa.Return)
+			if !isR || len(r.Results) != 1 {
+				continue
+			}
+			c, isC := r.Results[0].(*ssa.Const)
+			if !isC || c.Value == nil {
+				good = false
+				continue
+			}
+			if constant.BoolVal(c.Value) {
+				// true only from the found side of the test
+				if !memIf.Block().Succs[0].Dominates(b) {
+					good = false
+				}
+			} else {
+				// false only after exhaustion
+				exh := false
+				for _, p := range b.Preds {
+					if p == hm && !loopBlocks(hm)[b] {
+						exh = true
+					}
+				}
+				if !exh || len(b.Preds) != 1 {
+					good = false
+				}
+			}
+		}
+		if good {
+			return ci, true
+		}
+	}
+	return 0, false
+}
+
+func returnsBoolSig(f *ssa.Function) bool {
+	r := f.Signature.Results()
+	if r.Len() != 1 {
+		return false
+	}
+	b, ok := r.At(0).Type().Underlying().(*types.Basic)
+	return ok && b.Kind() == types.Bool
 }
 
 // appendOf: v = append(base, elems...) with a literal element list.
